@@ -15,7 +15,8 @@ Definition entry_ok (e : str * str) : bool :=
   && is_word (snd e)                     (* ids are non-empty, free of whitespace and parentheses *)
   && negb (prefixb (snd e) W_WITH).      (* no id (with or without "+") reads "WITH" *)
 Definition table_ok (lics excs : list (str * str)) : bool :=
-  forallb entry_ok lics && forallb entry_ok excs && forallb (fun e => negb (is_opword (fst e))) excs.
+  forallb entry_ok lics && forallb entry_ok excs && forallb (fun e => negb (is_opword (fst e))) excs
+  && forallb (fun e => negb (prefixb licenseref_lc (fst (strip_plus (fst e))))) excs.     (* no exception id looks like a LicenseRef *)
 
 (* ---------------------------------------------------------------- lower() versus ASCII folding, on KELVIN-free text *)
 Lemma kfree_cons c r : kfree (c :: r) -> c <> 8490 /\ kfree r.
@@ -176,9 +177,13 @@ Proof.
   unfold canon, canon_toks. rewrite split_ws_lower. destruct raw; reflexivity.
 Qed.
 
-Lemma TOK_l : forallb entry_ok lics = true. Proof. unfold table_ok in TOK. apply andb_true_iff in TOK as [H _]. now apply andb_true_iff in H as [H _]. Qed.
-Lemma TOK_e : forallb entry_ok excs = true. Proof. unfold table_ok in TOK. apply andb_true_iff in TOK as [H _]. now apply andb_true_iff in H as [_ H]. Qed.
-Lemma TOK_o : forallb (fun e => negb (is_opword (fst e))) excs = true. Proof. unfold table_ok in TOK. now apply andb_true_iff in TOK as [_ H]. Qed.
+Lemma TOK_all : forallb entry_ok lics = true /\ forallb entry_ok excs = true /\ forallb (fun e => negb (is_opword (fst e))) excs = true
+  /\ forallb (fun e => negb (prefixb licenseref_lc (fst (strip_plus (fst e))))) excs = true.
+Proof. unfold table_ok in TOK. apply andb_true_iff in TOK as [H H4]. apply andb_true_iff in H as [H H3]. apply andb_true_iff in H as [H1 H2]. auto. Qed.
+Lemma TOK_l : forallb entry_ok lics = true. Proof. apply TOK_all. Qed.
+Lemma TOK_e : forallb entry_ok excs = true. Proof. apply TOK_all. Qed.
+Lemma TOK_o : forallb (fun e => negb (is_opword (fst e))) excs = true. Proof. apply TOK_all. Qed.
+Lemma TOK_r : forallb (fun e => negb (prefixb licenseref_lc (fst (strip_plus (fst e))))) excs = true. Proof. apply TOK_all. Qed.
 
 Lemma entry_ok_inv e : entry_ok e = true ->
   fst e = afold (snd e) /\ forallb asciib (fst e) = true /\ forallb asciib (snd e) = true /\ is_word (snd e) = true /\ prefixb (snd e) W_WITH = false.
@@ -498,3 +503,27 @@ Proof.
   exists out. now apply pass2o_canon_tokens with false.
 Qed.
 End Tables.
+
+(* ---------------------------------------------------------------- only the documented exception, for every input and every table *)
+Lemma mem_lookup k tbl : mem k tbl = true -> exists id, lookup k tbl = Some id.
+Proof.
+  unfold mem, lookup. induction tbl as [|e tbl IH]; [discriminate|]. cbn [existsb find].
+  destruct (streq (fst e) k); [eauto|]. exact IH.
+Qed.
+Lemma final_pass_no_crash lics excs pairs : forall nr al, final_pass lics excs nr al pairs <> PCrash.
+Proof.
+  induction pairs as [|[o t] r IH]; intros nr al; cbn [final_pass]; [discriminate|].
+  destruct (match nr with [] => false | h :: _ => streq h W_WITH end).
+  - destruct (mem t excs) eqn:M; [|discriminate]. destruct (mem_lookup _ _ M) as (id & ->). apply IH.
+  - destruct (is_opword t).
+    + destruct (streq t w_with && negb al); [discriminate|apply IH].
+    + cbv zeta. destruct (prefixb licenseref_lc (if last_is 43 t then removelast t else t)).
+      * destruct (ref_match _); [apply IH|discriminate].
+      * destruct (mem _ lics) eqn:M; [|discriminate]. destruct (mem_lookup _ _ M) as (id & ->). apply IH.
+Qed.
+Theorem canon_no_crash lics excs s : canon lics excs s <> Crash.
+Proof.
+  unfold canon. destruct (negb (nonemptyb s)); [discriminate|]. destruct (skeleton None _); [|discriminate].
+  pose proof (final_pass_no_crash lics excs (combine (split_ws (pad s)) (split_ws (lower (pad s)))) [] false) as H.
+  destruct (py_eval l); try discriminate; destruct (final_pass _ _ _ _ _); try discriminate; congruence.
+Qed.
